@@ -22,10 +22,20 @@ func runBackup(in *mvInput, r *rand.Rand, n int, sink *CaseSink, replay bool) {
 	} else {
 		e = mvGenerate(r, in, n, false)
 		g := &mvGen{r: r, e: e, nkeys: 10, ops: in.Ops}
-		for i := 0; i < 6; i++ {
-			g.do(mvOp{Op: "put", W: 0, Bs: b2i(g.item(r.Intn(10)))})
+		// enough items (over several epochs, so that versions pile up) for the range split to
+		// produce several shards
+		g.nkeys = 26
+		for ep := 0; ep < 2; ep++ {
+			for i := 0; i < 30; i++ {
+				k := r.Intn(26)
+				if r.Intn(4) == 0 {
+					g.do(mvOp{Op: "del", W: 0, Bs: b2i(g.item(k))})
+				} else {
+					g.do(mvOp{Op: "put", W: 0, Bs: b2i(g.item(k))})
+				}
+			}
+			g.do(mvOp{Op: "snap"})
 		}
-		g.do(mvOp{Op: "snap"})
 		in.Ops = g.ops
 		os_ := g.openSnaps()
 		in.Sn = int(os_[r.Intn(len(os_))])
